@@ -373,6 +373,11 @@ LIB_META.update({
             "before statements at any depth. Oracles: (1) the source slice of each model-ignored statement incl. its `;` occurs in the "
             "output in order; (2) every statement unrelated to an ignored one has the text it gets with the directives defused. "
             "Non-trivial as for C01; counters give ignored statements / comparisons made."),
+    "C11": ("exploration", "Corpus x the 80 combinations of quote_style x call_parentheses x space_after_function_names (rotating) x widths, 12 "
+            "call/quote/function-header templates x all 80 combinations x 3 widths (pinned), generated programs and corpus mutants under "
+            "random configurations (seeded). Oracle: every quoted string token (own lexer), every call site with its suffix context and "
+            "every function header of the re-parsed output is judged against the rule for the option value. Non-trivial as for C01; "
+            "counters give strings / calls / headers judged."),
 })
 
 COMMON_ASSUMPTIONS = [
